@@ -43,6 +43,9 @@ func (e *Exec) pkgFromSource(p string) bool {
 	if strings.HasPrefix(p, "github.com/zmap/zlint/v3") {
 		return true
 	}
+	if e.srcExtra[p] > 0 {
+		return true
+	}
 	return symSourcePkgs[p]
 }
 
